@@ -22,7 +22,23 @@ def line_fn_shape(cx, fn):
                 out.append((cn.c(norm(P.local(pr[0]['idx'], b, i))), I.shorten_vars(cn.c(norm(P.rvalue(st['rv'], b, i, 0)))).replace('$pre[', 'pre[')))
         return out
     ret = [I.shorten_vars(cn.c(norm(P.rvalue(st['rv'], b, i, 0)))).replace('$pre[', 'pre[') for b, i, st in fn.stmts() if st['k'] == 'assign' and st['lhs']['l'] == 0 and not st['lhs']['p']]
-    return stores('pre', False), stores('lw', True), ret
+    pre_, lw_ = stores('pre', False), stores('lw', True)
+    # a locally computed `pre`: reads of it by the line coefficients and the returned point must see the FINAL version of
+    # each cell (the last store to that index); those reads are then written like the sibling's reads of its parameter
+    import re as _re
+    cnt = {}
+    for a_, _ in pre_:
+        cnt[a_] = cnt.get(a_, 0) + 1
+    def final(txt):
+        def sub(m):
+            k_ = m.group(1)
+            n_ = cnt.get(k_, 0)
+            fin = "#{[%s]}" % k_ if n_ == 1 else "#{[%s]'%d}" % (k_, n_)
+            return 'pre[%s]' % k_ if m.group(2) == fin else m.group(0)
+        return _re.sub(r"pre\[(\d+)\](#\{[^}]*\})", sub, txt)
+    lw_ = [(a_, final(b_)) for a_, b_ in lw_]
+    ret = [final(x) for x in ret]
+    return pre_, lw_, ret
 
 
 def run(cx):
@@ -123,8 +139,8 @@ def run(cx):
         want = ['point_pi1($q)', 'point_neg_pi2($q)', 'sm9_u256_eval_g_line_no_pre(point_pi1($q))', 'fp_line_mul', 'sm9_u256_eval_g_line_no_pre(point_neg_pi2($q))', 'fp_line_mul', 'final_exponent']
         cx.add('I-MILLER', 'frobenius-steps', sorted(tail[:2]) + tail[2:] == sorted(want[:2]) + want[2:], 'after the loop: f *= l_{T,pi(Q)}(P); f *= l_{T,-pi^2(Q)}(P); final exponentiation: %s' % tail, fn.loc())
         pre = [(a, I.shorten_vars(b)) for a, b in I.stores(fn, F, 'pre')]
-        want = [('0', 'fp_sqr($q.y)'), ('4', 'fp_mul($q.x, $q.z)'), ('4', 'fp_double(pre[4])'), ('1', 'fp_sqr($q.z)'), ('1', 'fp_mul($q.z, pre[1])'),
-                ('2', 'fp_mul_fp(pre[1], affy($p))'), ('2', 'fp_double(pre[2])'), ('3', 'fp_mul_fp(pre[1], affx($p))'), ('3', 'fp_double(pre[3])'), ('3', 'fp_neg(pre[3])')]
+        want = [('0', 'fp_sqr($q.y)'), ('4', 'fp_mul($q.x, $q.z)'), ('4', "fp_double(pre[4]#{[4]'1})"), ('1', 'fp_sqr($q.z)'), ('1', "fp_mul($q.z, pre[1]#{[1]'1})"),
+                ('2', "fp_mul_fp(pre[1]#{[1]'2}, affy($p))"), ('2', "fp_double(pre[2]#{[2]'1})"), ('3', "fp_mul_fp(pre[1]#{[1]'2}, affx($p))"), ('3', "fp_double(pre[3]#{[3]'1})"), ('3', "fp_neg(pre[3]#{[3]'2})")]
         cx.add('I-MILLER', 'pre', pre == want, 'precomputed values for the chord lines through Q: yQ^2, 2 xQ zQ, zQ^3, 2 zQ^3 yP, -2 zQ^3 xP', fn.loc(), {'got': pre})
     # ---------------------------------------------------------------- S-LINE: sibling line functions agree
     f1 = cx.fn('gm_sm9::points::sm9_u256_eval_g_line', 'S-LINE')
@@ -143,8 +159,8 @@ def run(cx):
                     deleg = a_[0] == '$lw' and a_[2:] == ['$p', '$t', '$q'] and 'pre' in a_[1]
         cx.add('S-LINE', 'lines', deleg or (l1 == l2 and bool(l1)), 'both chord-line evaluators store the same three line coefficients (given the same pre values): %s' % ('the no-pre variant delegates to its sibling with (lw, pre, p, t, q)' if deleg else '%d stores' % len(l1)), f2.loc(), {'with_pre': l1, 'no_pre': l2})
         cx.add('S-LINE', 'point', deleg or (r1 == r2 and bool(r1)), 'both return the same updated point T + Q', f2.loc())
-        want = [('0', 'fp_sqr($t.y)'), ('4', 'fp_mul($t.x, $t.z)'), ('4', 'fp_double(pre[4])'), ('1', 'fp_sqr($t.z)'), ('1', 'fp_mul($t.z, pre[1])'),
-                ('2', 'fp_mul_fp(pre[1], $q.y)'), ('2', 'fp_double(pre[2])'), ('3', 'fp_mul_fp(pre[1], $q.x)'), ('3', 'fp_double(pre[3])'), ('3', 'fp_neg(pre[3])')]
+        want = [('0', 'fp_sqr($t.y)'), ('4', 'fp_mul($t.x, $t.z)'), ('4', "fp_double(pre[4]#{[4]'1})"), ('1', 'fp_sqr($t.z)'), ('1', "fp_mul($t.z, pre[1]#{[1]'1})"),
+                ('2', "fp_mul_fp(pre[1]#{[1]'2}, $q.y)"), ('2', "fp_double(pre[2]#{[2]'1})"), ('3', "fp_mul_fp(pre[1]#{[1]'2}, $q.x)"), ('3', "fp_double(pre[3]#{[3]'1})"), ('3', "fp_neg(pre[3]#{[3]'2})")]
         cx.add('S-LINE', 'pre', p2 == want, 'the no-pre variant computes the five pre values exactly as sm9_u256_pairing does (with its t in the role of Q and q in the role of affine P)', f2.loc(), {'got': p2})
     # ---------------------------------------------------------------- Frobenius maps and final exponentiation
     def ret1(q):
